@@ -1,6 +1,7 @@
 """C01 - formula strings denote the documented Wilkinson term algebra."""
 import itertools
 
+from mc.explorer import Skip
 from mc.runner import Sub
 from models import wilkinson as W
 from props.common import FLAG_SETS, parse, terms_to_plain
@@ -514,6 +515,104 @@ def drv_reconfigure(c, ctx, col):
     col.sample({"flags_first": list(f1), "flags_then": list(f2), "formula": probe})
 
 
+# ---------------------------------------------------------------------------
+# what a string denotes does not depend on what the same parser object parsed before
+
+SEQ_POOL = ["( a + b ) ** 2", "( b + a ) ** 2", "( a + b + c ) ** 2", "( c + a + b ) ** 2", "a : b", "b : a", "a : b + b : a", "a * b", "b * a",
+            "( a + b ) : c", "( b + a ) : c", "c : ( a + b )", "a / b", "b / a", "b %in% a", "a %in% b", "a + b - a", "b + a", "y ~ a + b", "y ~ b + a",
+            "a | b", "b | a", "a ** 2", "( a : b + c ) ** 2", "( c + b : a ) ** 2"]
+
+
+def drv_sequences(c, ctx, col):
+    """every ordered pair of sentences on ONE fresh parser object (and through the module-level default parser behind Formula()): the
+    second result must be what the reference says / what a fresh parser gives"""
+    from formulaic.parser import DefaultFormulaParser
+    from formulaic.errors import FormulaParsingError
+    s1, s2 = c.pick(SEQ_POOL), c.pick(SEQ_POOL)
+    icpt = not c.flag()
+    via = c.pick(["one DefaultFormulaParser object", "Formula() (module-level default parser)"])
+
+    def run(p, s):
+        try:
+            if p is None:
+                from formulaic import Formula
+                f = Formula(s)
+                from formulaic.formula import SimpleFormula
+                return ("OK", [str(t) for t in f] if isinstance(f, SimpleFormula) else terms_to_plain(f))
+            return ("OK", terms_to_plain(p.get_terms(s)))
+        except FormulaParsingError as e:
+            return ("REJECT", type(e).__name__)
+        except Exception as e:  # noqa
+            return ("ESCAPE", "%s: %s" % (type(e).__name__, str(e)[:80]))
+
+    if via.startswith("Formula"):
+        if not icpt:
+            raise Skip()
+        run(None, s1)
+        got = run(None, s2)
+        ref = ref_outcome(s2.split(), True, FLAG_SETS[0], AVAILS[0])
+        want = ("OK", _degree_sorted(ref[1])) if ref[0] == "OK" else ref
+    else:
+        parser = DefaultFormulaParser(include_intercept=icpt)
+        run(parser, s1)
+        got = run(parser, s2)
+        want = ref_outcome(s2.split(), icpt, FLAG_SETS[0], AVAILS[0])
+    if s1 != s2:
+        col.interesting()
+    if want[0] == "UNSPEC":
+        col.count("unspecified")
+        return
+    if (got[0], got[1] if got[0] == "OK" else None) != (want[0], want[1] if want[0] == "OK" else None):
+        col.violation("sequence :: %r then %r icpt=%s via=%s" % (s1, s2, icpt, via),
+                      {"first": s1, "second": s2, "include_intercept": icpt, "via": via, "got_for_second": got, "reference_for_second": want},
+                      sig="result-depends-on-earlier-parse")
+    col.sample({"first": s1, "second": s2, "via": via})
+
+
+def _degree_sorted(x):
+    if isinstance(x, dict):
+        return {k: _degree_sorted(v) for k, v in x.items()}
+    if isinstance(x, tuple):
+        return tuple(_degree_sorted(v) for v in x)
+    return W.degree_sorted(x)
+
+
+# ---------------------------------------------------------------------------
+# equivalent forms under a parser of the caller's own
+
+FORM_PARTS = ["a + b", "x", "a:b - 1", "a + 0", "u ~ v", "a | b", "[ a ~ b ] + c"]
+
+
+def drv_forms_parser(c, ctx, col):
+    """keyword form, dict form and tuple form given the SAME custom parser must treat the part strings alike"""
+    from formulaic import Formula
+    from formulaic.parser import DefaultFormulaParser
+    cfg = c.pick([("include_intercept=True", dict(include_intercept=True)), ("include_intercept=False, flags=NONE", dict(include_intercept=False, feature_flags=set())),
+                  ("include_intercept=False, flags=ALL", dict(include_intercept=False, feature_flags={"all"})), ("include_intercept=True, flags=NONE", dict(include_intercept=True, feature_flags=set()))])
+    lhs, rhs = c.pick(FORM_PARTS), c.pick(FORM_PARTS)
+
+    def build(kind):
+        P = DefaultFormulaParser(**cfg[1])
+        try:
+            if kind == "keywords":
+                f = Formula(lhs=lhs, rhs=rhs, _parser=P)
+            elif kind == "dict":
+                f = Formula({"lhs": lhs, "rhs": rhs}, _parser=P)
+            else:
+                f = Formula.from_spec({"lhs": lhs, "rhs": rhs}, parser=P)
+            return ("OK", terms_to_plain(f))
+        except Exception as e:  # noqa
+            return ("RAISED", type(e).__name__)
+
+    a, b, d = build("keywords"), build("dict"), build("from_spec")
+    col.interesting()
+    if not (a == b == d):
+        col.violation("forms-parser :: lhs=%r rhs=%r parser(%s)" % (lhs, rhs, cfg[0]),
+                      {"lhs": lhs, "rhs": rhs, "parser": cfg[0], "Formula(lhs=, rhs=, _parser=P)": a, "Formula({'lhs':, 'rhs':}, _parser=P)": b, "Formula.from_spec(dict, parser=P)": d},
+                      sig="equivalent-forms-differ-under-custom-parser")
+    col.sample({"lhs": lhs, "rhs": rhs, "parser": cfg[0]})
+
+
 def toks_to_str(terms):
     return list(terms)
 
@@ -555,6 +654,10 @@ def subchecks(tier, seed):
                         bounds={"lhs_shapes": [" ".join(x) for x in LHS_SHAPES], "rhs_max_binary_operators": 1, "rhs_tails": ["", "| a", "| ( a )"]}))
         subs.append(Sub("reconfigure", drv_reconfigure, {}, shard_depth=2,
                         bounds={"flag_subset_pairs": 64, "formulas": RECONF_FORMULAS, "sequence": "configure F1, parse, set_feature_flags(F2), parse"}))
+        subs.append(Sub("sequences", drv_sequences, {}, shard_depth=2,
+                        bounds={"sentences": SEQ_POOL, "pairs": "all ordered pairs", "via": ["one parser object", "Formula()"], "x": "intercept on/off"}))
+        subs.append(Sub("forms-custom-parser", drv_forms_parser, {}, shard_depth=2,
+                        bounds={"part_strings": FORM_PARTS, "parsers": 4, "forms": ["keywords", "dict", "from_spec"]}))
     else:
         subs.append(Sub("tokens", drv_tokens, {"sigma": SIGMA_T, "L": 4}, shard_depth=3,
                         bounds={"alphabet": SIGMA_T, "max_tokens": 4}))
@@ -582,4 +685,8 @@ def subchecks(tier, seed):
                         bounds={"lhs_shapes": [" ".join(x) for x in LHS_SHAPES], "rhs_max_binary_operators": 2, "rhs_tails": ["", "| a", "| ( a )"]}))
         subs.append(Sub("reconfigure", drv_reconfigure, {}, shard_depth=2,
                         bounds={"flag_subset_pairs": 64, "formulas": RECONF_FORMULAS, "sequence": "configure F1, parse, set_feature_flags(F2), parse"}))
+        subs.append(Sub("sequences", drv_sequences, {}, shard_depth=2,
+                        bounds={"sentences": SEQ_POOL, "pairs": "all ordered pairs", "via": ["one parser object", "Formula()"], "x": "intercept on/off"}))
+        subs.append(Sub("forms-custom-parser", drv_forms_parser, {}, shard_depth=2,
+                        bounds={"part_strings": FORM_PARTS, "parsers": 4, "forms": ["keywords", "dict", "from_spec"]}))
     return subs
